@@ -182,7 +182,27 @@ fn judge_case(c: &ZCase) -> Verdict {
     let lsft = code_of("lsft");
     let mut shift_restored_ok = true;
     let expected: String;
-    if c.scenario % 2 == 1 {
+    if c.scenario % 4 == 3 {
+        // the chord's keys pressed too slowly: each more than the deadline (500 ms) after the
+        // previous one; nothing activates, the keys are typed as they are
+        let keys = mask_keys(entry.chords[0]);
+        let ps = perms(keys.len());
+        let order = &ps[crate::engine::pick(c.orders.first().copied().unwrap_or(0), ps.len())];
+        let mut exp = String::new();
+        for oi in order {
+            let name = CHORD_KEYS[keys[*oi]];
+            sim.press(code_of(name));
+            typed_desc.push(format!("d:{name} t:510"));
+            sim.tick_n(510);
+            exp.push(name.chars().next().unwrap());
+        }
+        for oi in order {
+            sim.release(code_of(CHORD_KEYS[keys[*oi]]));
+            sim.tick_n(3);
+        }
+        expected = exp;
+        v.classes.push("slower-than-the-deadline");
+    } else if c.scenario % 2 == 1 {
         // sequential single-key typing: never a chord
         let mut exp = String::new();
         for (i, t) in c.tail.iter().chain(c.orders.iter().map(|o| (*o % 256) as u8).collect::<Vec<u8>>().iter()).enumerate() {
@@ -345,7 +365,7 @@ impl TypedProp for C20 {
     fn info(&self) -> PropInfo {
         PropInfo {
             level: "exploration",
-            rule: "dictionaries: 1-5 entries over chord keys a-f and `.`: a first chord of 2-3 keys, 0-2 follow-up chords of 1-2 keys, outputs of 1-6 characters (lower / upper case letters, space); a third of the entries extend the previous entry's first chord by one key, half of those also extend its output; smart-space none / add-space-only / full; deadline and idle-reactivate 500 ms. History: mostly a character typed first and zippychord left to re-enable (erasing too much shows); optionally shift held; every chord of the chosen entry's path pressed in a generated order with gaps of 1-8 ms, released, 10 ms pause; shift released; then 0-3 taps of keys that are in no chord (x y z ; ,). A separate scenario types single chord keys one after the other (never two at once). Oracle: the OS output is replayed into a text buffer (characters with the shift state, space, backspace); the text left must be the entry's expansion (first character capitalised when shift is held), plus the smart space where configured (removed again by punctuation in full mode), plus the characters typed afterwards; sequential typing must come out unchanged; a held shift must be down again after each activation; nothing is left down. Non-trivial: the dictionary has >= 2 entries or shift is held. Distinct: hash of the case.".into(),
+            rule: "dictionaries: 1-5 entries over chord keys a-f and `.`: a first chord of 2-3 keys, 0-2 follow-up chords of 1-2 keys, outputs of 1-6 characters (lower / upper case letters, space); a third of the entries extend the previous entry's first chord by one key, half of those also extend its output; smart-space none / add-space-only / full; deadline and idle-reactivate 500 ms. History: mostly a character typed first and zippychord left to re-enable (erasing too much shows); optionally shift held; every chord of the chosen entry's path pressed in a generated order with gaps of 1-8 ms, released, 10 ms pause; shift released; then 0-3 taps of keys that are in no chord (x y z ; ,). A separate scenario types single chord keys one after the other (never two at once), another presses a chord's keys more than the deadline apart. Oracle: the OS output is replayed into a text buffer (characters with the shift state, space, backspace); the text left must be the entry's expansion (first character capitalised when shift is held), plus the smart space where configured (removed again by punctuation in full mode), plus the characters typed afterwards; sequential typing and too-slow chords must come out as typed; a held shift must be down again after each activation; nothing is left down. Non-trivial: the dictionary has >= 2 entries or shift is held. Distinct: hash of the case.".into(),
             assumptions: vec!["a chord's own line precedes the lines that follow it up (the file format rejects the other order)".into(), "with shift held the first character of the expansion is capitalised (documented behaviour)".into()],
             extra: BTreeMap::new(),
         }
@@ -358,7 +378,7 @@ impl TypedProp for C20 {
             },
             exhaustive: false,
             distinct_by_construction: false,
-            required_classes: vec!["single-chord", "follow-up-chord", "extends-a-shorter-chord", "overlapping-dictionary", "shift-held", "smart-space-added", "uppercase-output", "non-chord-typing"],
+            required_classes: vec!["single-chord", "follow-up-chord", "extends-a-shorter-chord", "overlapping-dictionary", "shift-held", "smart-space-added", "uppercase-output", "non-chord-typing", "slower-than-the-deadline"],
             hang_secs: 60,
         }
     }
@@ -382,9 +402,9 @@ impl TypedProp for C20 {
             any::<bool>(),
             prop::bool::weighted(0.7),
             prop::collection::vec(0u8..5, 0..4),
-            prop::bool::weighted(0.15),
+            prop_oneof![15 => Just(0u8), 3 => Just(1u8), 2 => Just(3u8)],
         )
-            .prop_map(|(raw, smart_space, which, orders, gap, shift, prefix, tail, non_chord)| {
+            .prop_map(|(raw, smart_space, which, orders, gap, shift, prefix, tail, scenario)| {
                 let mut entries: Vec<ZEntry> = vec![];
                 for (chords, outs, extend) in raw {
                     let mut chords = chords;
@@ -441,7 +461,7 @@ impl TypedProp for C20 {
                     shift,
                     prefix,
                     tail,
-                    scenario: if non_chord { 1 } else { 0 },
+                    scenario,
                 }
             })
             .boxed()
